@@ -21,6 +21,7 @@ class PL(object):
         self.stems = list(stems)
         self.name = name
         self.kinds = list(kinds) if kinds is not None else None
+        self.cls = None      # symmetry class (None: not interchangeable with any other pool member)
         lru = stems[0]
         for s in stems[1:]:
             lru = lru + s
@@ -105,7 +106,9 @@ def plain_pool(E, shape, L=1, tag="", sparse=False):
         for j in range(ns):
             ln = L[i][j] if isinstance(L, (list, tuple)) else L
             stems.append(payload(E, "%sp%d.%d" % (tag, i, j), ln, sparse) + bar)
-        pool.append(PL(stems, "%sP%d" % (tag, i)))
+        pl = PL(stems, "%sP%d" % (tag, i))
+        pl.cls = tuple(len(x) for x in stems)
+        pool.append(pl)
     distinct(E, pool)
     return pool
 
@@ -151,6 +154,15 @@ def typed_pool(E, specs, L=1, scheme=b"http", tag="t"):
     """specs: list of dicts(hosts=, paths=, port=, www=, scheme=)"""
     pool = []
     for i, sp in enumerate(specs):
+        if "extend" in sp:
+            base = pool[sp["extend"]]
+            stems = list(base.stems)
+            kinds = list(base.kinds)
+            for q in range(sp.get("paths", 1)):
+                stems.append(E.const(b"p:") + E.bytes("%s%d.p%d" % (tag, i, q), L) + E.const(b"|"))
+                kinds.append("p")
+            pool.append(PL(stems, "%s%d" % (tag, i), kinds))
+            continue
         pool.append(typed_lru(E, "%s%d" % (tag, i), scheme=sp.get("scheme", scheme), port=sp.get("port", False),
                               hosts=sp.get("hosts", 2), paths=sp.get("paths", 0), L=L, www=sp.get("www", False)))
     distinct(E, pool)
